@@ -83,6 +83,8 @@ struct Lin {
     a: [[f64; 2]; 2],
     calls: Cell<usize>,
     bad_time: Cell<bool>,
+    bad_delta: Cell<bool>,
+    base: [f64; 2],
     x: f64,
 }
 impl IVP for Lin {
@@ -90,6 +92,23 @@ impl IVP for Lin {
         self.calls.set(self.calls.get() + 1);
         if x.to_bits() != self.x.to_bits() {
             self.bad_time.set(true);
+        }
+        if self.calls.get() > 1 {
+            // a perturbed evaluation: exactly one component moved, by sqrt(eps) * max(|y_j|, 1) (the documented size)
+            let mut moved = 0;
+            for c in 0..2 {
+                if y[c].to_bits() != self.base[c].to_bits() {
+                    moved += 1;
+                    let want = 1.4901161193847656e-8 * self.base[c].abs().max(1.0);
+                    let got = (y[c] - self.base[c]).abs();
+                    if !((got - want).abs() <= want * 1e-6) {
+                        self.bad_delta.set(true);
+                    }
+                }
+            }
+            if moved != 1 {
+                self.bad_delta.set(true);
+            }
         }
         for r in 0..2 {
             d[r] = self.a[r][0] * y[0] + self.a[r][1] * y[1];
@@ -111,11 +130,12 @@ fn c15_fd_jacobian_linear_n2() {
     let yk: [i8; 2] = kani::any();
     kani::assume(yk[0] >= -2 && yk[0] <= 2 && yk[1] >= -2 && yk[1] <= 2);
     let y = [yk[0] as f64, yk[1] as f64];
-    let f = Lin { a, calls: Cell::new(0), bad_time: Cell::new(false), x: 0.25 };
+    let f = Lin { a, calls: Cell::new(0), bad_time: Cell::new(false), bad_delta: Cell::new(false), base: y, x: 0.25 };
     let mut j = Matrix::zeros(2, 2);
     f.jac(0.25, &y, &mut j);
     assert!(f.calls.get() == 3, "default Jacobian uses n+1 right-hand-side evaluations");
     assert!(!f.bad_time.get(), "default Jacobian evaluates the right-hand side at time x only");
+    assert!(!f.bad_delta.get(), "each perturbed evaluation moves exactly one component by sqrt(eps)*max(|y_j|,1)");
     let r: usize = kani::any();
     let c: usize = kani::any();
     kani::assume(r < 2 && c < 2);
